@@ -540,11 +540,11 @@ def rules(fx, rep):
 def main(tier, t0):
     return common.standard_main(
         PROP, tier, t0, rules, 'other',
-        'Structural (SHAPE) rules over MIR for the linear part of the tower: the 12 add/sub/double/negate impls call the component '
-        'operation exactly once per component with matching component indices; is_zero is decided to be the conjunction over all components '
-        '(path enumeration over component predicates); zero/one are (0|1, 0, ..); frobenius_map recurses on every component with the '
-        'caller\'s power *before* multiplying component c_i by TABLE_i[power % len(TABLE_i)]; all 26 Frobenius coefficients equal '
-        '(u+1)^((q^k-1)/d) (arithmetic on extracted constants); conjugate negates exactly c1; Fq6::mul_by_nonresidue is the rotation '
+        'The linear part of the tower decided by abstract interpretation in the free Z-module over the Fq coefficients: the 12 add/sub/double/negate impls '
+        'map coefficient c_i to c_i + d_i / c_i - d_i / 2 c_i / -c_i whatever calls compute it; is_zero returns true exactly when all coefficients are zero '
+        '(every path, any nesting); zero/one are (0|1, 0, ..); frobenius_map (interpreted for powers 0..2*period+1) maps every component with the '
+        'caller\'s power and multiplies component c_i by exactly gamma_i(power) (values compared; identity powers and unit multipliers normalised); all 26 Frobenius coefficients equal '
+        '(u+1)^((q^k-1)/d) (arithmetic on extracted constants); conjugate negates exactly the c1 coefficients; Fq6::mul_by_nonresidue is the rotation '
         '(xi*c2, c0, c1) by copy provenance; inverse() fails only through the subfield inversion. NOT decided: the Karatsuba/Toom '
         'multiplication, squaring, inversion and sparse-product formulas (ring identities over runtime values).',
         ['rustc MIR + const evaluation', 'component operations meet their contracts (induction down to the derive-generated Fq)'],
